@@ -108,7 +108,7 @@ def run_json(spec, acc):
     dbx = refdb.db()
     rng = gen.rng_for(spec["seed"], ID, spec["name"])
     quick = spec["tier"] == "quick"
-    defs = [d for d in dbx.defs if d.supported and d.index % spec["n"] == spec["i"]]
+    defs = gen.shard_by_pgn([d for d in dbx.defs if d.supported], spec["i"], spec["n"])
     dec_plain = NMEA2000Decoder()
     dec_ident = NMEA2000Decoder(build_network_map=True)
     dec_ident.decode_basic_string(wire.plain_line(6, 60928, 9, 255, hist.claim_name(1234, 1851).to_bytes(8, "little")), already_combined=True)
@@ -145,11 +145,16 @@ def run_dump(spec, acc):
     base = os.path.join(runner.SCRATCH, f"c15-dump-{os.getpid()}")
     os.makedirs(base, exist_ok=True)
     try:
-        for c in range(12 if quick else 120):
+        for c in range(40 if quick else 400):
             pool = hist.Pool(dbx, rng, n_single=6, n_fast=4)
             defs = pool.singles + pool.fasts
             style = ["empty", "numbers", "ids", "mixed", "ids-other-case", "numbers"][c % 6]
             chosen = rng.sample(defs, min(len(defs), rng.randint(1, 3)))
+            # often name one definition of a PGN number that has siblings in the traffic (filter by id must not
+            # be decided per PGN number)
+            sibs = [d for d in defs if sum(1 for x in defs if x.pgn == d.pgn) > 1]
+            if sibs and c % 2 == 0:
+                chosen[0] = rng.choice(sibs)
             nums, ids, entries = set(), set(), []
             for j, d in enumerate(chosen):
                 if style == "empty":
